@@ -52,6 +52,204 @@ pub fn parse_offsets_text(text: &str) -> Vec<(Vec<u64>, u64)> {
     out
 }
 
+/// Reference model of time labels, straight from the source text: inside a script / function body the
+/// time starts at 0, `N:` sets it, `+N:` adds, `-N:` sets it to -N, and every other statement --
+/// whatever its nesting -- inherits it.  Returns (byte position of a label's name -> time there) for
+/// every `name:` label; bodies containing a time label with an expression are left out.
+fn label_times_from_source(src: &str) -> BTreeMap<usize, i64> {
+    #[derive(PartialEq, Clone, Debug)]
+    enum T {
+        Id(String),
+        Int(i64),
+        Str,
+        P(char),
+    }
+    let b: Vec<char> = src.chars().collect();
+    // byte offsets of each char
+    let mut offs = Vec::with_capacity(b.len() + 1);
+    let mut o = 0;
+    for c in &b {
+        offs.push(o);
+        o += c.len_utf8();
+    }
+    let mut toks: Vec<(T, usize)> = vec![];
+    let mut i = 0;
+    while i < b.len() {
+        let c = b[i];
+        if c.is_whitespace() {
+            i += 1;
+        } else if c == '/' && b.get(i + 1) == Some(&'/') {
+            while i < b.len() && b[i] != '\n' {
+                i += 1;
+            }
+        } else if c == '/' && b.get(i + 1) == Some(&'*') {
+            i += 2;
+            while i + 1 < b.len() && !(b[i] == '*' && b[i + 1] == '/') {
+                i += 1;
+            }
+            i += 2;
+        } else if c == '#' {
+            while i < b.len() && b[i] != '\n' {
+                i += 1;
+            }
+        } else if c == '"' {
+            let st = i;
+            i += 1;
+            while i < b.len() && b[i] != '"' {
+                if b[i] == '\\' {
+                    i += 1;
+                }
+                i += 1;
+            }
+            i += 1;
+            toks.push((T::Str, offs[st]));
+        } else if c.is_ascii_digit() {
+            let st = i;
+            let mut radix = 10;
+            if c == '0' && matches!(b.get(i + 1), Some('x') | Some('X')) {
+                radix = 16;
+                i += 2;
+            } else if c == '0' && matches!(b.get(i + 1), Some('b') | Some('B')) {
+                radix = 2;
+                i += 2;
+            }
+            let s2 = i;
+            while i < b.len() && (b[i].is_ascii_hexdigit() && radix == 16 || b[i].is_ascii_digit() || b[i] == '_') {
+                i += 1;
+            }
+            let txt: String = b[s2..i].iter().filter(|c| **c != '_').collect();
+            let is_float = radix == 10 && (b.get(i) == Some(&'.') && b.get(i + 1).map_or(false, |d| d.is_ascii_digit()) || matches!(b.get(i), Some('f') | Some('F')));
+            if is_float {
+                while i < b.len() && (b[i].is_ascii_digit() || b[i] == '.' || b[i] == 'f' || b[i] == 'F') {
+                    i += 1;
+                }
+                toks.push((T::P('F'), offs[st]));
+            } else {
+                toks.push((T::Int(i64::from_str_radix(&txt, radix).unwrap_or(i64::MAX)), offs[st]));
+            }
+        } else if c.is_alphabetic() || c == '_' {
+            let st = i;
+            while i < b.len() && (b[i].is_alphanumeric() || b[i] == '_') {
+                i += 1;
+            }
+            toks.push((T::Id(b[st..i].iter().collect()), offs[st]));
+        } else {
+            toks.push((T::P(c), offs[i]));
+            i += 1;
+        }
+    }
+    let mut out = BTreeMap::new();
+    let (mut depth, mut paren) = (0i32, 0i32);
+    let mut active = false;
+    let mut poisoned = false;
+    let mut item_kw = String::new();
+    let mut time: i64 = 0;
+    let mut at_start = false;
+    let mut pending: Vec<(usize, i64)> = vec![];
+    let kw = ["if", "unless", "else", "while", "do", "loop", "times", "goto", "break", "return", "int", "float", "var", "const", "interrupt", "case", "default"];
+    let mut k = 0;
+    while k < toks.len() {
+        let (t, pos) = toks[k].clone();
+        let get = |j: usize| toks.get(j).map(|x| x.0.clone());
+        match t {
+            T::Id(ref s) if depth == 0 && ["script", "void", "int", "float", "meta", "entry", "const"].contains(&s.as_str()) => {
+                item_kw = s.clone();
+            }
+            T::P('{') => {
+                // difficulty label {"..."}:
+                if active && at_start && get(k + 1) == Some(T::Str) && get(k + 2) == Some(T::P('}')) && get(k + 3) == Some(T::P(':')) {
+                    k += 4;
+                    continue;
+                }
+                if depth == 0 {
+                    active = ["script", "void", "int", "float"].contains(&item_kw.as_str());
+                    poisoned = false;
+                    time = 0;
+                    pending.clear();
+                }
+                depth += 1;
+                at_start = true;
+                k += 1;
+                continue;
+            }
+            T::P('}') => {
+                depth -= 1;
+                if depth == 0 {
+                    if active && !poisoned {
+                        for (p, t) in pending.drain(..) {
+                            out.insert(p, t);
+                        }
+                    }
+                    active = false;
+                    item_kw.clear();
+                }
+                at_start = true;
+                k += 1;
+                continue;
+            }
+            T::P(';') => {
+                at_start = paren == 0;
+                k += 1;
+                continue;
+            }
+            T::P('(') | T::P('[') => paren += 1,
+            T::P(')') | T::P(']') => paren -= 1,
+            _ => {}
+        }
+        if active && at_start && paren == 0 {
+            match (&t, get(k + 1), get(k + 2)) {
+                (T::P('+'), Some(T::Int(n)), Some(T::P(':'))) => {
+                    time += n;
+                    k += 3;
+                    continue;
+                }
+                (T::P('-'), Some(T::Int(n)), Some(T::P(':'))) => {
+                    time = -n;
+                    k += 3;
+                    continue;
+                }
+                (T::Int(n), Some(T::P(':')), _) => {
+                    time = *n;
+                    k += 2;
+                    continue;
+                }
+                (T::P('+'), Some(T::P('(')), _) => poisoned = true,
+                (T::Id(name), Some(T::P('[')), _) if name == "interrupt" => {
+                    // interrupt[EXPR]:  -- a label-like statement; what follows is a statement start again
+                    let mut j = k + 1;
+                    let mut d = 0;
+                    while j < toks.len() {
+                        match toks[j].0 {
+                            T::P('[') => d += 1,
+                            T::P(']') => {
+                                d -= 1;
+                                if d == 0 {
+                                    break;
+                                }
+                            }
+                            _ => {}
+                        }
+                        j += 1;
+                    }
+                    if get(j + 1) == Some(T::P(':')) {
+                        k = j + 2;
+                        continue;
+                    }
+                }
+                (T::Id(name), Some(T::P(':')), _) if !kw.contains(&name.as_str()) => {
+                    pending.push((pos, time));
+                    k += 2;
+                    continue;
+                }
+                _ => {}
+            }
+        }
+        at_start = false;
+        k += 1;
+    }
+    out
+}
+
 /// "every local's register is the register that the emitted instructions use for it, and every
 /// constant's value is the value the compiler used", judged against the file on disk through the
 /// reader's text:
@@ -124,6 +322,7 @@ fn check_locals_and_consts(w: &mut Worker, case: &Case, doc: &Value, scripts: &[
             None
         }
     };
+    let label_times = label_times_from_source(&String::from_utf8_lossy(&src));
     let consts: BTreeMap<String, Value> = doc["consts"].as_array().map(|a| a.iter().filter(|c| span_of(&c["name-span"]).is_some()).filter_map(|c| c["name"].as_str().map(|n| (n.to_string(), c["value"].clone()))).collect()).unwrap_or_default();
     for (j, sc) in scripts.iter().enumerate() {
         // the reader's script with the same offsets (unique), instruction k <-> instruction k
@@ -135,6 +334,19 @@ fn check_locals_and_consts(w: &mut Worker, case: &Case, doc: &Value, scripts: &[
         let instrs = sc["instrs"].as_array().cloned().unwrap_or_default();
         if rs.instrs.len() != instrs.len() {
             continue;
+        }
+        // ---- label times against the reference model of the source text
+        for l in sc["labels"].as_array().cloned().unwrap_or_default() {
+            if let (Some(name), Some(sp), Some(t)) = (l["name"].as_str(), span_of(&l["span"]), l["time"].as_i64()) {
+                if src.get(sp.0..sp.0 + name.len()) != Some(name.as_bytes()) {
+                    continue;
+                }
+                match label_times.get(&sp.0) {
+                    Some(&want) if want == t => w.stats.probe("debuginfo:label-time-cross-checked"),
+                    Some(&want) => v.push(Violation { class: "debuginfo:label-time".into(), detail: format!("script {:?}: label '{}' has time {} in the debug info; the time labels of the source put it at {}", sc["name"], name, t, want) }),
+                    None => w.stats.probe("debuginfo:label-not-in-model(skip)"),
+                }
+            }
         }
         // ---- locals
         for l in sc["locals"].as_array().cloned().unwrap_or_default() {
